@@ -79,7 +79,7 @@ PredefName(cfg, c, id) ==
        ELSE IF all # {} THEN (CHOOSE e \in all : TRUE).n
        ELSE "?none"
 \* predefined names of the alphabets / generators that are wildcard filters (TLC cannot scan a string)
-WildPredefNames == {"w/#", "w/+"}
+WildPredefNames == {"w/#", "w/+", "a/+", "a/#", "#", "+"}
 PredefHas(cfg, c, id) == \E e \in Range(cfg.predef) : e.id = id /\ e.c \in {c, "*"}
 PredefIds(cfg, c, n) == {id \in {e.id : e \in Range(cfg.predef)} : PredefHas(cfg, c, id) /\ PredefName(cfg, c, id) = n}
 
@@ -230,8 +230,10 @@ Resolve(s, p) ==
       [] p.tit = 2 -> p.sname
       [] OTHER -> "?none"
 
+\* A wildcard name is normally refused; no property forbids registering it as long as it is never
+\* published under, so an observed acceptance (the hint carries the ID of an accepted REGACK) is followed.
 DoRegister(s, p, h) ==
-    IF p.wild THEN Send(s, SnRegack(0, p.mid, RC_NOT_SUPPORTED))
+    IF p.wild /\ h.tid = 0 THEN Send(s, SnRegack(0, p.mid, RC_NOT_SUPPORTED))
     ELSE IF RegIds(s, p.topic) # {} THEN
         LET id == Pick(RegIds(s, p.topic), h.tid)
         IN Send([s EXCEPT !.handed = @ \cup {[id |-> id, n |-> p.topic]},
@@ -250,7 +252,7 @@ PublishLegalWhenDisconnected(s, p) == ~s.cfg.auth /\ p.qos = 3 /\ p.tit \in {1, 
 
 DoPublish(s, p) ==
     LET name == Resolve(s, p)
-        bad  == name = "?none" \/ (p.tit = 2 /\ p.swild) \/ (p.tit = 1 /\ name \in WildPredefNames)
+        bad  == name = "?none" \/ (p.tit = 2 /\ p.swild) \/ (p.tit \in {0, 1} /\ name \in WildPredefNames)
         m    == [Mq0 EXCEPT !.t = "PUBLISH", !.topic = name, !.pl = p.data, !.retain = p.retain,
                             !.dup = p.dup, !.qos = IF p.qos = 3 THEN 0 ELSE p.qos,
                             !.mid = IF p.qos \in {1, 2} THEN p.mid ELSE 0]
